@@ -64,6 +64,8 @@ def rand_meta(rng):
         if key.startswith(':') or '::' in key:
             continue
         val = ''.join(rng.choice(list('ab 1.') + WEIRD) for _ in range(rng.randrange(0, 9)))
+        if rng.random() < 0.1:
+            val = rng.choice(['None', 'null', '0', 'False', 'none', S.rand_value(rng)])   # values that look like "nothing", any Unicode
         val = val.rstrip()           # the parser strips trailing whitespace (not leading)
         if '::' in val or '\n' in val or '\r' in val:
             continue
